@@ -58,10 +58,19 @@ def run(ctx, rep):
         rep.ob('R02.c', rf.S + '::get_messages_by_offset', 'disk before buffer', bool(d_before), m.where(),
                'disk loader precedes the buffer loader on the mixed path' if d_before else 'the buffer part is loaded before (or without) the disk part')
 
-    # ------------------------------------------------------------ R02.b no literal into an accumulator offset outside constructors
-    rep.rule('R02.b', 'accumulator offsets: writers and forms of BatchAccumulator.{base_offset,current_offset}', floor=2, analysis='A10')
+    # ------------------------------------------------------------ R02.b accumulator offsets
+    rep.rule('R02.b', 'accumulator offsets: the base offset follows the first buffered message whenever the buffer was empty, the last offset the last appended message; reset only at materialisation; no writer outside the accumulator', floor=7, analysis='A10')
     BA = 'server::streaming::batching::batch_accumulator::BatchAccumulator'
-    for f in ('base_offset', 'current_offset', 'current_size', 'current_timestamp'):
-        for fn, b_, bb, ln, form in forms.field_assignments(ctx, BA, f):
-            ok = fn.startswith(BA + '::')
-            rep.ob('R02.b', fn, '%s = %s' % (f, form), ok, '%s:%s' % (b_.file, ln), None if ok else 'BatchAccumulator.%s is written outside the accumulator' % f)
+    ACC = {
+        'base_offset': {BA + '::append': ['[T]::first(items).offset'], BA + '::materialize_batch_and_update_state': ['0']},
+        'current_offset': {BA + '::append': ['[T]::last(items).offset'], BA + '::materialize_batch_and_update_state': ['0']},
+        'current_timestamp': {BA + '::append': ['[T]::last(items).timestamp'], BA + '::materialize_batch_and_update_state': ['0']},
+    }
+    forms.check_table(ctx, rep, 'R02.b', BA, ACC)
+    ab = ctx.fn_body(BA + '::append')
+    for blk in sorted(ab.reach):
+        for st in ab.stmts(blk):
+            lhs = st.get('lhs')
+            if lhs and len(lhs) > 1 and place_fields(lhs) and place_fields(lhs)[-1] == (BA, 'base_offset'):
+                ok = any(e[0] == 'call' and e[1].split('::')[-1] == 'is_empty' and t for e, t, _ in bool_literals_at(ab, blk))
+                rep.ob('R02.b', BA + '::append', 'base re-established only for an empty buffer', ok, '%s:%s' % (ab.file, st.get('ln')), None if ok else 'the base offset is overwritten although messages are already buffered')
